@@ -239,8 +239,13 @@ func runShard(shard int) *shardResult {
 	for {
 		stderrPath := filepath.Join(workDir, fmt.Sprintf("shard-%d.stderr.%d", shard, res.restarts))
 		cmd := workerCmd(shard, from, -1, logPath, stderrPath, meta.NoProgressS)
-		err := cmd.Run()
+		err := runWithTimeout(cmd, shardTimeout())
 		sum, vios, lastB, lastID, hung := parseLog(logPath)
+		if err == errShardTimeout {
+			res.incon = append(res.incon, fmt.Sprintf("shard %d exceeded the wall-clock watchdog (%v) in case %d (%s); not a verdict", shard, shardTimeout(), lastB, lastID))
+			res.violations = vios
+			break
+		}
 		if err == nil && sum != nil {
 			res.sum = sum
 			res.violations = vios
@@ -302,6 +307,38 @@ func persist(logPath string, vios []violation) {
 		buf.WriteByte('\n')
 	}
 	os.WriteFile(logPath, buf.Bytes(), 0o644)
+}
+
+var errShardTimeout = fmt.Errorf("shard watchdog")
+
+func shardTimeout() time.Duration {
+	if s := os.Getenv("VERIF_SHARD_TIMEOUT_S"); s != "" {
+		if v, err := strconv.Atoi(s); err == nil && v > 0 {
+			return time.Duration(v) * time.Second
+		}
+	}
+	if tier == "thorough" {
+		return 6 * time.Hour
+	}
+	return 20 * time.Minute
+}
+
+// runWithTimeout runs cmd under a generous wall-clock watchdog; its firing is
+// reported as inconclusive, never as a violation.
+func runWithTimeout(cmd *exec.Cmd, d time.Duration) error {
+	if err := cmd.Start(); err != nil {
+		return err
+	}
+	done := make(chan error, 1)
+	go func() { done <- cmd.Wait() }()
+	select {
+	case err := <-done:
+		return err
+	case <-time.After(d):
+		cmd.Process.Kill()
+		<-done
+		return errShardTimeout
+	}
 }
 
 func confirmHang(shard int, seq int64) (bool, string) {
